@@ -104,12 +104,15 @@ class C04(Prop):
                 'ThreadsafeForwardingResult, MultiTestResult over TestResult / TextTestResult leaves and all call histories: wasSuccessful() '
                 'is false exactly when an error, failure or unexpected success was reported since the last startTestRun; every '
                 'TextTestResult writes banner, one section per problem, the number of tests started and OK / FAILED(k) in agreement with it; '
-                'failfast read through any stack is what was set on the result(s) it reads through to - before or after wrapping, also as an attribute assigned on a 2.6 / Twisted style result behind its ExtendedToOriginalDecorator; with failfast reading true (also on a TestResultDecorator / Tagger reported to directly, on a directly used ThreadsafeForwardingResult, D15, and over old-flavour results: then shouldStop is the adapter\'s reading, its own flag if the result has none) the first bad outcome sets shouldStop, which then stays set until startTestRun, and (own results) is never set earlier (only after stop() or a bad outcome with failfast set somewhere); stop() on any node reaches every result below it; wrapping - and every startTestRun on any wrapper - leaves the failfast of every result alone (D14), and each result by itself '
+                'failfast read through any stack is what was set on the result(s) it reads through to - before or after wrapping, also as an attribute assigned on a 2.6 / Twisted style result behind its ExtendedToOriginalDecorator; with failfast reading true (also on a TestResultDecorator / Tagger reported to directly, on a directly used ThreadsafeForwardingResult, D15, and over old-flavour results: then shouldStop is the adapter\'s reading, its own flag if the result has none) the first bad outcome sets shouldStop, which then stays set until startTestRun, and (own results, stream pipelines included: StreamFailFast calls the decorator\'s stop for error / failure / unexpected success only) is never set earlier (only after stop() or a bad outcome with failfast set somewhere); stop() on any node sets its shouldStop (every graph, also the stream decorator\'s own) and reaches every result below it; wrapping - and every startTestRun on any wrapper - leaves the failfast of every result alone (D14), and each result by itself '
                 'stops exactly by its own setting or by a fail-fast ExtendedToOriginalDecorator above it; exit '
                 'status and summary of testtools.run for a module of test cases with and without -f.  The hand-written model is tied to '
                 'the code by a differential check (random + bounded-exhaustive graphs x histories, TestProgram run in process).',
-        'note': 'partial: everything through ExtendedToStreamDecorator + StreamFailFast is validated by the correspondence only (no theorem); the '
-                'text-summary theorem excludes TextTestResult behind ThreadsafeForwardingResult; '
+        'note': 'partial: the text-summary theorem excludes TextTestResult behind ThreadsafeForwardingResult; for graphs with a stream pipeline '
+                '(ExtendedToStreamDecorator + StreamFailFast) the fail-fast / stop clauses (failfast-kept, failfast-read, failfast-stops, '
+                'stop-sets, stop-sticky, not-earlier) are proved, while verdict, summary and the per-result clauses are stated for graphs '
+                'without one (StreamSummary.wasSuccessful does not count unexpected successes and learns of unfinished tests only at '
+                'stopTestRun; stop() on the stream decorator does not go on to the results behind it); '
                 'TextTestResult output is parsed, not modelled character by character; trusted: Lean kernel, model, harness',
         'technique': 'Lean 4 proofs by induction on the adapter tree (generic leaf-action theorem, frame lemma for failfast) and on the call '
                      'history; executable spec shared with a differential correspondence check',
